@@ -406,6 +406,9 @@ func (h *MemHandle) Sync() error {
 
 func (h *MemHandle) Close() error {
 	if h.closed {
+		if h.mapped {
+			return nil // like mmap.ReaderAt.Close: closing a closed mapping is not an error
+		}
 		return fs.ErrClosed
 	}
 	h.closed = true
